@@ -112,7 +112,8 @@ def report(chk, own_prop, results, bad_events, attribute=None):
                 raise C.ToolError("renderer failed on a case of suite %s: %s" % (r["suite"], m))
             prop = KIND_PROP.get(m["kind"], None) or suite_prop or (attribute(m) if attribute else None)
             props = {prop}
-            if m["kind"] == "panic":
+            spec_v = (m.get("expected") or {}).get("v") if (m.get("expected") or {}).get("status") == "inconclusive" else None
+            if m["kind"] == "panic" and spec_v is None:
                 # the specification predicted an outcome of the abstract machine for this case and the
                 # implementation panicked instead: also a violation of the property the case belongs to
                 props.add(suite_prop or (attribute(m) if attribute else None))
@@ -121,6 +122,8 @@ def report(chk, own_prop, results, bad_events, attribute=None):
                 continue
             sig = {"kind": m["kind"], "suite": r["suite"], "what": m.get("what", "")[:200],
                    "program": m.get("program", "")}
+            if isinstance(spec_v, str):
+                sig["spec_inconclusive"] = spec_v     # why the specification predicts no result for this run
             chk.violation(sig, m)
     for sig, b in classify_events(bad_events):
         prop = EVENT_PROP.get(b["e"].get("ev"))
